@@ -117,6 +117,7 @@ func abstractSig(w *World) (string, bool) {
 		a := w.Artifact(e)
 		fmt.Fprintf(&sb, "|%v%v%v%v%v", a.Exists, a.Cert != nil, a.Key != nil, a.Csr != nil, a.Pem.HasHash)
 	}
+	sb.WriteString("#" + w.SigExtra)
 	return sb.String(), nontrivial
 }
 
